@@ -12,7 +12,7 @@ CONSTANTS Stoppers = {"s1", "s2"}
  Replayable = FALSE
  WriteClients = {"c1"}
  WritingOutlivesRun = FALSE
- StopCheckThenAct = FALSE
+ StopCheckThenAct = TRUE
  MaxPolls = 1
  PollOnce = FALSE
 INVARIANTS C10_start_only_inactive C10_active_after_start C10_after_stops C10_writing_stopped C10_failed_start_clean C10_nopanic C10_no_stuck_stop C11_no_stuck_request
